@@ -105,7 +105,7 @@ def run(ck):
     hb = ck.build("h-square")
     ck.assumptions.append("hash functions are collision-free; concrete shares of a square are pairwise distinct (checked)")
     if ck.prop == "C06":
-        allc = _gen(ck, "SqNs", (1, 2), ["Honest", "RowEdit", "ShareEdit", "Substitute"])
+        allc = _gen(ck, "SqNs", (1, 2), ["Honest", "RowEdit", "ShareEdit", "Substitute", "SingleRow"])
         dev = ck.cfg_with("MC_SqNs.cfg", {"K": 2, "Complete": "FALSE"}, name="MC_SqNs_incomplete.cfg")
         r = ck.tlc_mc("MC_SqNs", dev, tag="mc_incomplete", expect_violation="NsSound")
         if not r.get("expected_violation_reproduced"):
